@@ -80,6 +80,16 @@ def rule2_strides(ctx, v):
             'caller continues with carg[1] (distinct element) and carg[0] is not written after the create; many -> various forwards '
             'parameters position-wise with func_stride 0 and funcs = &func')
     f = ctx.need_fn(v, 'myth_create_join_various_ex_aux')
+    # the split descriptor carries the strides and the index range at the width of the public interface (size_t strides, long
+    # count): slot offsets i * stride are 64-bit products
+    flds = dict((x['name'], x['size']) for x in v.structs.get('myth_create_join_various_arg', {}).get('fields', []))
+    need = ('id_stride', 'attr_stride', 'func_stride', 'arg_stride', 'result_stride', 'a', 'b')
+    ctx.ob('C17.2', 'split descriptor keeps strides and indices at 64 bits', all(flds.get(k) == 8 for k in need),
+           'a 32-bit stride or index makes i * stride wrap for extents of 4 GiB and more: some items are processed twice, others never',
+           loc=f.loc, detail=', '.join('%s:%s' % (k, flds.get(k)) for k in need))
+    narrow = [x for x in f.order if x.op == 'trunc' and any(
+        k in f.insts and f.insts[k].op == 'load' and f.field(f.insts[k]).startswith('myth_create_join_various_arg.') for k in f.sources(x.ops[0]))]
+    ctx.ob('C17.2', 'no descriptor value is narrowed in the helper', not narrow, 'locals keep the width of the fields', loc=(narrow[0].loc if narrow else f.loc))
     ic = [c for c in f.order if c.op == 'call' and 'callee_ref' in c.d]
     # exactly one application on every path through the leaf: the call sites are loop-free, mutually exclusive and together
     # unavoidable once the base case b - a == 1 has been taken
@@ -660,6 +670,8 @@ SCHED = 'src/myth_sched_func.h'
 PF = 'src/mtbb/parallel_for.h'
 TG = 'src/mtbb/task_group.h'
 MUTANTS = [
+    {'name': 'split descriptor narrowed to 32-bit strides (seed5 C17/m1)', 'expect': 'C17.2',
+     'edits': [('src/myth_sched_func.h', "  size_t id_stride;\t\t/* stride of ids   between consecutive threads */", "  unsigned id_stride;\t\t/* stride of ids   between consecutive threads */")]},
     {'name': 'create_join_many keeps its one-element function table in static storage (seed4 C17/m1)', 'expect': 'C17.5',
      'edits': [('src/myth_sched_func.h', "  myth_func_t funcs[1] = { func };", "  static myth_func_t funcs[1];\n  funcs[0] = func;")]},
     {'name': 'profiling task_group::wait_ returns without joining when its own counter is zero (seed4 C17/m2)', 'expect': 'C17.5',
